@@ -62,7 +62,8 @@ def run(chk: Check) -> int:
             break
         for rec in I.enumerate_scheds(lambda s, spec=spec: I.run_case(spec, s), orders=orders, cancel=cancel, limit=LIMIT):
             cnt += 1
-            col.add(rec, f"exhaustive {kind} ntasks={nt} evals<={T} goal={goal} #{cnt}")
+            # very large configurations: the oracle sees every schedule, Coq every third beyond the first 8000
+            col.add(rec, f"exhaustive {kind} ntasks={nt} evals<={T} goal={goal} #{cnt}", coq=(cnt <= 8000 or cnt % 3 == 0))
             if rec.machinery or col.enough():
                 break
         exh[f"{kind} ntasks={nt} evals<={T} goal={goal} cancel={cancel}"] = cnt
